@@ -7,7 +7,7 @@ import random
 import re
 import sys
 
-from .. import common, drive, gen, prog as P, render
+from .. import common, drive, gen, inject, prog as P, render
 from ..report import Report
 from . import comptrace
 
@@ -187,7 +187,8 @@ def main(tier, replay=None):
         "members) or 'unclear' (digits, acronyms, single letters) -- only the first two produce expectations",
         "indentation: files laid out with 4 spaces per level must produce no IndentWarning; other indentations are "
         "not judged",
-        "error file/line of single-violation schemas is decided by C08 with the same machine",
+        "error file/line: a sample of single-violation schemas (catalogue rules of C08) is decided here through the "
+        "parser error and through the diagnostic line the command line prints; C08 covers the catalogue in breadth",
     ]
     n = 150 if tier == "quick" else 3000
     traces, progs = [], []
@@ -221,6 +222,39 @@ def main(tier, replay=None):
             lang = ["c", "py", "go"][k % 3]
             clijobs += [(["-c", main_path], d), ([lang, main_path, o1], d), ([lang, main_path, o2, "-q"], d)]
             climeta.append((len(traces) - 1, o1, o2))
+        # single-violation invalid schemas at arbitrary line positions (blank lines, comments, imported files):
+        # the parser error and the diagnostic the command line prints cite the offending file and line
+        nerrp = 60 if tier == "quick" else 1200
+        errjobs, errmeta = [], []
+        rules = [r_ for r_ in inject.CATALOGUE if r_ != "extensible-in-traditional"]
+        for k in range(nerrp):
+            rng = random.Random("c20e/%d/%d" % (seed, k))
+            base, _ = gen.rand_case(seed, 165000 + k, max_bits=rng.choice([60, 300]), consts=True)
+            base = perturb(base, rng)
+            got = inject.inject(base, rules[(k + seed) % len(rules)], rng)
+            if got is None:
+                got = inject.inject(base, rng.choice(["width", "dup-name", "undefined-type", "capacity"]), rng)
+            if got is None:
+                continue
+            pr = got[0]
+            d = scratch.sub()
+            lay = render.Layout(indent=4, semi=(rng.random() < 0.2))
+            main_path, paths = render.write_program(pr, d, lay)
+            proto, outcome = P.observe_parse(main_path)
+            tr = P.spec_program(pr)
+            tr["id"] = "c20-err-%d-%d-%s" % (seed, k, got[1])
+            tr["obs"] = [outcome]
+            traces.append(tr)
+            progs.append(pr)
+            errjobs.append((["-c", main_path], d))
+            errmeta.append(len(traces) - 1)
+            rep.feature("error-citation:" + rules[(k + seed) % len(rules)])
+        for ti, (rc, so, se) in zip(errmeta, comptrace.run_cli_many(errjobs)):
+            m_ = re.search(r"error:\s+(\S*):L(\d+)\b", se)
+            traces[ti]["obs"].append({"ev": "Diag", "exit": rc, "nerr": se.count("error:"),
+                                      "traceback": "Traceback (most recent call last)" in se,
+                                      "cited": m_ is not None, "file": P.file_key(m_.group(1)) if m_ else "",
+                                      "line": int(m_.group(2)) if m_ else 0, "text": se.strip()[:200]})
         res = comptrace.run_cli_many(clijobs)
         for i, (ti, o1, o2) in enumerate(climeta):
             (rc_c, _, se_c), (rc1, _, se1), (rc2, _, se2) = res[3 * i:3 * i + 3]
